@@ -34,6 +34,14 @@ def run(run):
         c09.telescope(run)                          # the telemetry build's allocation category is back to null after every load (shared with C09)
     except Exception as ex:
         run.broken('NOGLOBAL', 'telemetry scope guard', str(ex), '')
+    from .util import share as _share
+    if not getattr(run, '_sharing', False) and not run.cfg_tag:
+        run._sharing = True
+        try:
+            _share(run, 'c16', ['NOESCAPE'], 'LAZYFILL')        # what a face caches does not point into a table it has handed back: released memory reads as whatever was allocated since (shared with C16)
+            _share(run, 'c10', ['LOADERSIB'], 'LAZYFILL')       # a glyph loaded on demand is the glyph the preloading loader would have stored (shared with C10)
+        finally:
+            run._sharing = False
     c08rules.partition(run, E.fx, 'PARTITION')
     c08rules.copyfeats(run, E, 'COPYFEATS')
     c08rules.casts(run, E.fx, 'CASTS', reach, E)
